@@ -1,6 +1,7 @@
 package an
 
 import (
+	"regexp"
 	"fmt"
 	"go/types"
 	"strings"
@@ -26,7 +27,13 @@ func e6dObligations(p *Prog, r *Report, rule string, sel func(rel string) bool, 
 		key := fmt.Sprintf("%s#%d", base, per[base])
 		pos := p.Pos(u.Pos)
 		if u.Undec != "" {
-			if why, ok := allowUndec[base]; ok {
+			why, ok := allowUndec[base]
+			if !ok && bodySliceRe.MatchString(strings.ReplaceAll(stripObj(u.Expr), " ", "")) {
+				// `X.Body[0:n]` in a function where every such slice was shown to be of
+				// NewMessage(int(n)) (sliceWithinNewMessage), whatever X and n are called
+				why, ok = allowUndec[u.Fn+"/X.Body[0:n]"]
+			}
+			if ok {
 				r.OK(rule, key, pos, "allow-listed: "+why)
 			} else {
 				r.Unk(rule, key, pos, fmt.Sprintf("%s on %s: %s — cannot bound statically", u.Undec, stripObj(u.Path), u.Expr))
@@ -41,6 +48,8 @@ func e6dObligations(p *Prog, r *Report, rule string, sel func(rel string) bool, 
 	}
 	r.Count("e6d.bounded_uses", n)
 }
+
+var bodySliceRe = regexp.MustCompile(`^[A-Za-z_][A-Za-z0-9_]*\.Body\[0?:[A-Za-z_][A-Za-z0-9_]*\]$`)
 
 func notMacat(rel string) bool { return !strings.HasPrefix(rel, "macat") }
 
@@ -98,7 +107,7 @@ func runC16(p *Prog, r *Report) {
 	allow := map[string]string{}
 	for _, a := range [][3]string{{"transport", "conn", "Recv"}, {"transport", "connipc", "Recv"}} {
 		ok, why := sliceWithinNewMessage(p, a[0], a[1], a[2])
-		key := a[0] + ".(*" + a[1] + ").Recv/msg.Body[0:sz]"
+		key := a[0] + ".(*" + a[1] + ").Recv/X.Body[0:n]"
 		if ok {
 			allow[key] = "slice within the capacity requested from NewMessage (pool invariant C01.1): " + why
 		} else {
